@@ -298,11 +298,14 @@ pub fn vk_bytes_cases(ctx: &mut Ctx, s: &FamSubject) {
             let r = read_vk(&vb, fmt, &s.fp);
             let ans = match r {
                 Err(p) => {
-                    ctx.oracle_fail(
-                        &format!("vk-read-panic:{vname}"),
-                        "VerifyingKey::read panicked on a structurally edited key",
-                        json!({"subject": s.desc(), "variant": vname, "fmt": fname, "panic": p}),
-                    );
+                    // the unchecked element readers unwrap a short read (trusted input only)
+                    if fname != "U" {
+                        ctx.oracle_fail(
+                            &format!("vk-read-panic:{vname}"),
+                            "VerifyingKey::read panicked on a structurally edited key",
+                            json!({"subject": s.desc(), "variant": vname, "fmt": fname, "panic": p}),
+                        );
+                    }
                     "panic".to_string()
                 }
                 Ok(Err(code)) => format!("err {code}"),
@@ -349,7 +352,13 @@ pub fn roundtrip_matrix(ctx: &mut Ctx, s: &FamSubject) -> (Vec<(String, VK)>, Ve
             ctx.count(&format!("roundtrip:{pair}"));
             // verifying key
             match read_vk(&vkb, *fb, &s.fp) {
-                Err(p) => ctx.oracle_fail(&format!("vk-read-panic:{pair}"), "VerifyingKey::read panicked", json!({"subject": s.desc(), "pair": pair, "panic": p})),
+                Err(p) => {
+                    if compatible(an, bn) {
+                        ctx.oracle_fail(&format!("vk-read-panic:{pair}"), "VerifyingKey::read panicked on its own output", json!({"subject": s.desc(), "pair": pair, "panic": p}));
+                    } else {
+                        ctx.count(&format!("mismatch-rejected:vk:{pair}:panic"));
+                    }
+                }
                 Ok(Ok(v2)) => {
                     if !compatible(an, bn) {
                         ctx.oracle_fail(&format!("vk-format-mismatch-accepted:{pair}"), "a verifying key written in one format was accepted when read in an incompatible one", json!({"subject": s.desc(), "pair": pair}));
@@ -374,7 +383,13 @@ pub fn roundtrip_matrix(ctx: &mut Ctx, s: &FamSubject) -> (Vec<(String, VK)>, Ve
             }
             // proving key
             match read_pk(&pkb, *fb, &s.fp) {
-                Err(p) => ctx.oracle_fail(&format!("pk-read-panic:{pair}"), "ProvingKey::read panicked", json!({"subject": s.desc(), "pair": pair, "panic": p})),
+                Err(p) => {
+                    if compatible(an, bn) {
+                        ctx.oracle_fail(&format!("pk-read-panic:{pair}"), "ProvingKey::read panicked on its own output", json!({"subject": s.desc(), "pair": pair, "panic": p}));
+                    } else {
+                        ctx.count(&format!("mismatch-rejected:pk:{pair}:panic"));
+                    }
+                }
                 Ok(Ok(p2)) => {
                     if !compatible(an, bn) {
                         ctx.oracle_fail(&format!("pk-format-mismatch-accepted:{pair}"), "a proving key written in one format was accepted when read in an incompatible one", json!({"subject": s.desc(), "pair": pair}));
@@ -411,6 +426,7 @@ pub fn proof_matrix(ctx: &mut Ctx, s: &FamSubject, vks: &[(String, VK)], pks: &[
             return;
         }
     };
+    // (proof bytes are not compared: the prover draws from OsRng, vanishing/prover.rs)
     // verifying keys: original, reloaded, and the one inside each reloaded pk
     let mut vlist: Vec<(String, &VK)> = vec![("orig".into(), &s.vk)];
     for (n, v) in vks {
@@ -444,9 +460,6 @@ pub fn proof_matrix(ctx: &mut Ctx, s: &FamSubject, vks: &[(String, VK)], pks: &[
             }
         };
         ctx.count("proof:made");
-        if proof != p0 {
-            ctx.oracle_fail(&format!("reloaded-pk-different-proof:{pn}"), "a reloaded proving key produced a different proof from the same randomness", json!({"subject": s.desc(), "pk": pn}));
-        }
         for (vn, vk) in &vlist {
             ctx.count("proof:verified-combination");
             match fam_verify(&s.params, vk, &s.fp, wseed, &proof) {
@@ -458,7 +471,8 @@ pub fn proof_matrix(ctx: &mut Ctx, s: &FamSubject, vks: &[(String, VK)], pks: &[
     for (vn, vk) in &vlist {
         ctx.count("proof:rejection-compared");
         let r1 = fam_verify(&s.params, vk, &s.fp, wseed, &bad);
-        let r2 = fam_verify(&s.params, vk, &s.fp, wseed + 1, &p0);
+        let same_statement = FamCircuit::new(s.fp.clone(), wseed).instances() == FamCircuit::new(s.fp.clone(), wseed + 1).instances();
+        let r2 = if same_statement { Ok(false) } else { fam_verify(&s.params, vk, &s.fp, wseed + 1, &p0) };
         if r1 != Ok(false) || r2 != Ok(false) {
             ctx.oracle_fail(&format!("reloaded-vk-accepts-more:{vn}"), "a key accepted a mutated proof / wrong statement", json!({"subject": s.desc(), "vk": vn, "mutated": format!("{r1:?}"), "wrong-statement": format!("{r2:?}")}));
         }
@@ -544,7 +558,9 @@ pub fn pk_bytes_case(ctx: &mut Ctx, s: &FamSubject) {
         let r = read_pk(&bytes[..cut], fmt, &s.fp);
         let ans = match r {
             Err(p) => {
-                ctx.oracle_fail("pk-read-panic:truncated", "ProvingKey::read panicked on a truncated key", json!({"subject": s.desc(), "panic": p}));
+                if fname != "U" {
+                    ctx.oracle_fail("pk-read-panic:truncated", "ProvingKey::read panicked on a truncated key", json!({"subject": s.desc(), "panic": p}));
+                }
                 "panic".into()
             }
             Ok(Err(c)) => format!("err {c}"),
